@@ -16,7 +16,7 @@ func init() { props["C25"] = runC25 }
 // C25: for every input the full parser accepts, fastscan.Scan returns no error, the same
 // package and the same imports (path, public, weak, option) in the same order.
 func runC25(h *hx.H) {
-	h.Rule = "inputs: every arrangement of <=2 (thorough <=3) non-default trivia values in the slots of two header skeletons (syntax, package, three imports incl. public/weak, an option whose message literal contains the words import/package, strings with escapes and quotes, `<`/`>` literals, a message using map<>), every token string of <=4 (thorough <=5) tokens over a header alphabet, every block and line comment body of <=4 (thorough 5) characters over {*, /, space, a, LF, quotes} placed before and between the statements, every import-path literal spelling over an escape alphabet (incl. adjacent string concatenation), every corpus file and its CRLF/BOM variants and single-token mutants; for every input the full parser accepts: fastscan.Scan error == nil and package/imports equal those in the AST; non-trivial = accepted input with >=1 import or a package"
+	h.Rule = "inputs: every sequence of <=3 (thorough 4) complete declarations out of 13 (imports of every kind, package, and declarations that contain angle, square, round and curly brackets), every arrangement of <=2 (thorough <=3) non-default trivia values in the slots of two header skeletons (syntax, package, three imports incl. public/weak, an option whose message literal contains the words import/package, strings with escapes and quotes, `<`/`>` literals, a message using map<>), every token string of <=4 (thorough <=5) tokens over a header alphabet, every block and line comment body of <=4 (thorough 5) characters over {*, /, space, a, LF, quotes} placed before and between the statements, every import-path literal spelling over an escape alphabet (incl. adjacent string concatenation), every corpus file and its CRLF/BOM variants and single-token mutants; for every input the full parser accepts: fastscan.Scan error == nil and package/imports equal those in the AST; non-trivial = accepted input with >=1 import or a package"
 	check := func(src string) {
 		idx, run := h.NextN()
 		if !run {
@@ -64,6 +64,33 @@ func runC25(h *hx.H) {
 		check("syntax = \"proto3\"; " + s)
 		check(s + " message M {}")
 	})
+	// every sequence of <=3 (thorough 4) complete declarations: imports and the package statement
+	// after (and between) declarations that contain every kind of bracket
+	decls := []string{
+		"import \"a.proto\";", "import public 'b.proto';", "import weak \"c.proto\";", "package foo.bar;",
+		"message Foo { map<string, string> m = 1; }",
+		"option (my.opt) = { inner < a: 1 > };",
+		"message M { optional int32 a = 1 [(o) = <a: 1 b <c: 2>>, deprecated = true]; }",
+		"option (o) = \"<\";", "option (o) = { s: '>' t: [1, 2] };",
+		"service S { rpc R(M) returns (stream M) { option (x) = <>; } }",
+		"enum E { A = 0 [(o) = {}]; }", "extend Foo { optional int32 x = 100; }", ";",
+	}
+	nDecl := 3
+	if h.Thorough() {
+		nDecl = 4
+	}
+	var recDecl func(prefix string, n int)
+	recDecl = func(prefix string, n int) {
+		for _, d := range decls {
+			s := strings.TrimSpace(prefix + " " + d)
+			check(s)
+			check("syntax = \"proto3\";\n" + strings.ReplaceAll(s, "; ", ";\n"))
+			if n+1 < nDecl {
+				recDecl(s, n+1)
+			}
+		}
+	}
+	recDecl("", 0)
 	// import path spellings
 	esc := []string{"a", "\\n", "\\\\", "\\\"", "\\'", "\\x41", "\\101", "\\u0041", "\\U00000041", "\\0", "é", "/", ".", "\\x", "\\8", "\" \"", "' '", "\"\n\""}
 	nEsc := 3
